@@ -209,7 +209,7 @@ def plan(tier):
         return [
             ('IL1-full', 'full', 1, ALL, P5),
             ('IL1-small', 'small', 1, ALL, P5),
-            ('IL2-small', 'small', 2, ('same-object', 'same-kind'), P5),
+            ('IL2-small', 'small', 2, ('same-object',), P5),
         ]
     return [
         ('IL1-full', 'full', 1, ALL, P7),
